@@ -359,6 +359,12 @@ with identb_methods (a b : methods) : bool :=
 Record meth := Meth { m_name : str; m_typ : N; m_ifn : N }.    (* m_typ: descriptor identity; m_ifn = 0: nil *)
 Record imeth := IMeth { im_name : str; im_typ : N }.
 
+(* Name_ of a method in a type's method table (ssa/abitype.go abiUncommonMethods) and of an interface
+   method (abiInterfaceImethods): exported names are bare, unexported ones are FullName(declaring package
+   of the METHOD, name) - for a promoted method that is the embedded type's package, not the receiver's *)
+Definition table_name (name : str) (decl_pkg : option str) : str :=
+  if exported name then name else full_name decl_pkg name.
+
 (* Go string comparison: bytewise lexicographic *)
 Fixpoint str_ltb (a b : str) : bool :=
   match a, b with
